@@ -4,11 +4,11 @@ LEVEL = "proof"
 
 def check(rep, tier):
     from contracts import tracer_ftba, tracer_trace
-    tracer_trace.run(rep, tier, interfere=False)
-    tracer_ftba.run(rep, tier, clauses=("FT4",))
+    rep.run(tracer_trace.run, rep, tier, interfere=False)
+    rep.run(tracer_ftba.run, rep, tier, clauses=("FT4",))
     from contracts import discipline
-    discipline.run_frame(rep, tier)
+    rep.run(discipline.run_frame, rep, tier)
     from contracts import programs_exact
-    programs_exact.run_history(rep)
+    rep.run(programs_exact.run_history, rep)
     from contracts import core_backward
-    core_backward.run_proof(rep, tier, which=('backward_pass',))
+    rep.run(core_backward.run_proof, rep, tier, which=('backward_pass',))
